@@ -13,6 +13,7 @@ observers (keys, CONTAINS, order_by tuples, sort_by, lookupOne) go through the s
 import json
 import os
 import random
+import resource
 import time
 
 import corpus
@@ -137,7 +138,8 @@ def random_histories(seed, n_hist, n_sets, ox0):
       elif x < 0.80 and len(ids) >= 2:
         a = rnd.choice(ids)
         e = E("mv", row=a, val=I(rnd.choice([i for i in ids if i != a] + [0])))
-      elif x < 0.86 and edits:
+      elif x < 0.86 and edits and edits[-1]["op"] != "retype":
+        # (undoing a type change is left out: it restores the type but not the stored numbers - C01)
         e = E("undo")
         ids, ty = list(snaps[-2][0]), snaps[-2][1]
       elif x < 0.92:
@@ -429,7 +431,10 @@ def _selftest(files, entries, workdir):
 
 
 def _count(files):
-  hist = steps = evals = nontrivial = 0
+  """(histories, recorded steps, judged step records, judged lookups, of these with >= 2 rows, steps by edit).
+  A step is recorded once per history it occurs in; it is judged unless the identical step of the same
+  input prefix, or an identical record, was judged before (fn_lookup: from / di)."""
+  hist = steps = evals = nontrivial = recorded = 0
   ops = {}
   for f in files:
     data = json.load(open(f))
@@ -437,20 +442,28 @@ def _count(files):
       hist += 1
       nobs = len(data["obsets"][c["inp"]["ox"] - 1])
       for n, ob in enumerate(c["out"]):
-        if n < c["from"]:
+        recorded += 1
+        if n > 0 and n >= c["from"]:
+          op = c["inp"]["edits"][n - 1]["op"]
+          ops[op] = ops.get(op, 0) + 1
+        if n < c["from"] or ob["di"]:
           continue
         steps += 1
         evals += nobs * len(ob["probes"])
         nontrivial += sum(1 for col in ob["cells"] for cell in col if len(cell) >= 2)
-        if n > 0:
-          op = c["inp"]["edits"][n - 1]["op"]
-          ops[op] = ops.get(op, 0) + 1
-  return hist, steps, evals, nontrivial, ops
+  return hist, recorded, steps, evals, nontrivial, ops
+
+
+def _cpu():
+  r = resource.getrusage(resource.RUSAGE_CHILDREN)
+  return r.ru_utime + r.ru_stime
 
 
 def run(ctx):
   cfg = "%s_%s.cfg" % (MC, ctx.tier)
+  cpu0 = _cpu()
   data, model = fnspec.enumerate_inputs(MC, cfg, ctx.workdir)
+  cpu_model = _cpu() - cpu0
   obsets, hist = data["obsets"], data["hist"]
   nodes = set()
   for h in hist:
@@ -467,18 +480,23 @@ def run(ctx):
   r_obsets, r_hist = random_histories(ctx.seed, 250 if ctx.quick else 4000, 3 if ctx.quick else 12, len(obsets))
   for h in hist + r_hist:
     h["session"] = []
-  t0 = time.time()
+  t0, cpu0 = time.time(), _cpu()
   files = execute(obsets + r_obsets, hist + r_hist, ctx.workdir, nshards=16)
-  t_engine = time.time() - t0
+  t_engine, cpu_engine = time.time() - t0, _cpu() - cpu0
+  cpu0 = _cpu()
   entries, t_judge = judge(files, ctx.workdir)
-  n_hist, n_steps, n_evals, n_nontrivial, ops = _count(files)
-  ctx.log("the real engine ran %d histories in %.1fs; TLC judged %d steps / %d lookups in %.1fs"
-          % (n_hist, t_engine, n_steps, n_evals, t_judge))
+  cpu_judge = _cpu() - cpu0
+  n_hist, n_rec, n_steps, n_evals, n_nontrivial, ops = _count(files)
+  ctx.log("the real engine ran %d histories / %d recorded steps in %.1fs (cpu %.0fs); TLC judged %d distinct step "
+          "records / %d lookups in %.1fs (cpu %.0fs); design model cpu %.0fs"
+          % (n_hist, n_rec, t_engine, cpu_engine, n_steps, n_evals, t_judge, cpu_judge, cpu_model))
   if n_hist != len(hist) + len(r_hist):
     raise tlc.MachineryError("recorded %d histories for %d inputs" % (n_hist, len(hist) + len(r_hist)))
   _selftest(files, entries, ctx.workdir)
-  viol = isolate(violations_of(entries), ctx.workdir)
-  viol, classes = _cap(viol)
+  # a broken tree fails thousands of steps: the smallest cases of every clause / known class are kept,
+  # and those that no known class explains are re-run on their own
+  viol, classes = _cap(violations_of(entries))
+  viol = isolate(viol, ctx.workdir, limit=60)
   mid = len(hist) // 2
   return {
     "states": model["distinct"] + n_steps, "transitions": model["generated"] + n_steps,
@@ -507,7 +525,8 @@ def run(ctx):
                     "not NaN; cells that would leave it make the run fail as undecidable instead of passing"],
     "violations": [_strip(v) for v in viol],
     "extra": {"histories_enumerated": len(hist), "histories_random": len(r_hist), "families": fams,
-              "judged_steps": n_steps, "judged_steps_by_edit": ops, "violation_classes": classes,
+              "recorded_steps": n_rec, "judged_step_records": n_steps, "distinct_steps_by_edit": ops,
+              "cpu_s": {"model": round(cpu_model), "engine": round(cpu_engine), "judge": round(cpu_judge)}, "violation_classes": classes,
               "model_wall_s": round(model["wall"], 1), "engine_wall_s": round(t_engine, 1),
               "judge_wall_s": round(t_judge, 1)},
   }
